@@ -41,7 +41,7 @@ claim("C01", "DESIGN.md 6 C01",
       "16 theorems: selective strategy - after a Pending return, a child that is awaited, was polled, last answered Pending and whose waker fired implies the newest "
       "parent waker was woken (join/try_join slice+tuple, merge, zip, FutureGroup, StreamGroup), plus quiescence (no wake outstanding => every awaited child polled and "
       "unsignalled); non-selective strategy and race/race_ok/chain/wait_until - every waker ever handed out is the parent waker of that poll and firing it wakes that parent. "
-      "C01_join_resolves_under_wake_driven_executor: under an executor that fires every child's most recent waker and then polls, a join of n>=1 Pending*-then-Ready children returns its positional result within (longest script) rounds and never unwinds; C01_join_family_returns_... (join and try_join), C01_merge_next_result_... and C01_zip_next_result_...: the stream form, from every reachable state (next item / row or the end within B rounds). "
+      "C01_join_resolves_under_wake_driven_executor: under an executor that fires every child's most recent waker and then polls, a join of n>=1 Pending*-then-Ready children returns its positional result within (longest script) rounds and never unwinds; C01_join_family_returns_... (join and try_join), C01_merge_next_result_... and C01_zip_next_result_...: the stream form, from every reachable state (next item / row or the end within B rounds). The same for FutureGroup and StreamGroup after any history of inserts, removes and reserves (C01_group_next_result_..., the generic section speaks about occupied slots and the member a slot holds), for the join family from every reachable state, and - under every schedule of polls and wake-ups, since they keep no readiness of their own - for race, race_ok and chain (C01_race_resolves_..., C01_race_ok_resolves_..., C01_chain_next_result_...). "
       "C01_*_trace restate it over the observable trace (bookkeeping recomputed from the events); C01_fire_total_*: every handle ever handed out names an existing slot, so firing it never fails. "
       "Nests of combinators are covered by universality (an inner combinator is an arbitrary child, a sub-waker an arbitrary parent) and instantiated by the harness in monitor-only suites. "
       "Partial: real thread interleavings are represented by the lock windows of the model (a wake is atomic with respect to a poll's critical sections); the thorough tier exercises that assumption with real threads (mt-harness: 40 000 cases, every Pending child woken from a second OS thread, hang / panic / wrong result reported)." + COMMON)
@@ -56,11 +56,11 @@ claim("C03", "DESIGN.md 6 C03",
 claim("C05", "DESIGN.md 6 C05", "C05_try_join: at most one result; Ok = positional vector of the children's own Ok values with nobody failed; Err e = the first failure, returned with it, and the last child poll ever made; C05_ledger: stored values are dropped, not returned." + COMMON)
 claim("C06", "DESIGN.md 6 C06", "C06_race_first_wins (Pr): the winner is the first child seen to resolve, in that poll, which is the last child poll ever made; C06_losers_dropped: the losers are dropped unfinished with the race." + COMMON)
 claim("C07", "DESIGN.md 6 C07", "C07_race_ok_first_success (Pk) for the array, tuple and Vec algorithms: first success wins in that poll; Err only when all n failed, positional aggregate; a failed child is never polled again; zero futures -> empty aggregate." + COMMON)
-claim("C08", "DESIGN.md 6 C08", "C08_merge_exactly_once: per input, the yields with that provenance are exactly the items it produced, in order; nothing else is returned; None iff all inputs ended (zero inputs: first poll, after the fix: commit); C08_yields_at_once (automaton eager_b): an item answered by an input is the result of that very poll - the Coq-extracted predicate is also evaluated on every trace of the crate." + COMMON)
-claim("C09", "DESIGN.md 6 C09", "C09_zip_rows (Tz): k-th row = k-th items positional; at most one item ahead; None with the first End, which is the last poll; C09_unmatched_dropped: buffered items are dropped, never yielded." + COMMON)
-claim("C10", "DESIGN.md 6 C10", "C10_chain_sequential (Pc): the sequential automaton accepts the poll list (an input is polled only when every earlier one has ended), results = items in order then None." + COMMON)
-claim("C11", "DESIGN.md 6 C11", "Slab refinement + trace theorems for FutureGroup over all histories of insert/remove/reserve/queries/poll/fire: exactly-once with the insert's key, discipline, len/keys/keys-distinct/capacity, None iff empty, ledger, insert never panics, capacity never shrinks along any history, and the Pending half (C11_pending_means_nonempty: over every history in which no member answers End - a future cannot - every Pending is returned with a member alive). Partial: extend is reserve + repeated insert in the runner (as in the crate), validated by the correspondence." + COMMON)
-claim("C12", "DESIGN.md 6 C12", "The same theorems for StreamGroup: every item of every member exactly once in member order with its key; a member that ends is dropped in that poll and never polled again; None iff no members remain." + COMMON)
+claim("C08", "DESIGN.md 6 C08", "C08_merge_exactly_once: per input, the yields with that provenance are exactly the items it produced, in order; nothing else is returned; None iff all inputs ended (zero inputs: first poll, after the fix: commit); C08_yields_at_once (automaton eager_b): an item answered by an input is the result of that very poll - the Coq-extracted predicate is also evaluated on every trace of the crate. C08_every_item_comes_out_under_wake_driven_executor: after any history the wake-driven executor of C01 is handed None within (items still scripted + 1) * B rounds, at a world of the model, where exactly-once says every item was yielded." + COMMON)
+claim("C09", "DESIGN.md 6 C09", "C09_zip_rows (Tz): k-th row = k-th items positional; at most one item ahead; None with the first End, which is the last poll; C09_unmatched_dropped: buffered items are dropped, never yielded. C09_zip_ends_under_wake_driven_executor: None is handed out within (items input 0 still has + its buffered item + 1) * B rounds." + COMMON)
+claim("C10", "DESIGN.md 6 C10", "C10_chain_sequential (Pc): the sequential automaton accepts the poll list (an input is polled only when every earlier one has ended), results = items in order then None. C10_chain_ends_under_any_schedule: None is returned within s + 1 polls, s the Pending and Item answers scripted before the Ends." + COMMON)
+claim("C11", "DESIGN.md 6 C11", "Slab refinement + trace theorems for FutureGroup over all histories of insert/remove/reserve/queries/poll/fire: exactly-once with the insert's key, discipline, len/keys/keys-distinct/capacity, None iff empty, ledger, insert never panics, capacity never shrinks along any history, and the Pending half (C11_pending_means_nonempty: over every history in which no member answers End - a future cannot - every Pending is returned with a member alive). C11_every_member_comes_out_under_wake_driven_executor: a FutureGroup of futures is empty after at most len * B rounds of the wake-driven executor of C01, at a world of the model, so that exactly-once and len say every member's output was returned. Partial: extend is reserve + repeated insert in the runner (as in the crate), validated by the correspondence." + COMMON)
+claim("C12", "DESIGN.md 6 C12", "The same theorems for StreamGroup: every item of every member exactly once in member order with its key; a member that ends is dropped in that poll and never polled again; None iff no members remain. C12_every_item_comes_out_under_wake_driven_executor: a StreamGroup of streams is empty after at most (items still scripted + 1) * B rounds of the wake-driven executor of C01, at a world of the model." + COMMON)
 claim("C16", "DESIGN.md 6 C16", "C16_join/merge/zip/group: in the selective strategy the model never polls a child whose last answer was Pending and whose slot has not fired since (ghost flag g_bad16 stays false for all histories); C16_*_trace: the same as a statement about the observable trace alone - the boolean monitor mon16, which recomputes the bookkeeping from the events, accepts every trace of the model (Section GhostTrace: the ghost fields are a function of the trace in every reachable state); checked against the std build." + COMMON)
 claim("C17", "DESIGN.md 6 C17", "C17_merge_window: an input whose script is items only and never runs out has provenance in any n consecutive results, whatever the others do (generic fairness lemma of rotating scans)." + COMMON)
 claim("C19", "DESIGN.md 6 C19", "C19_wait_until_gate (Pw): polls are (deadline,Pending)* (deadline,a0) (inner,_)+; results are exactly the inner's non-Pending answers." + COMMON)
